@@ -89,6 +89,7 @@ pub fn wide_cfg() -> GenCfg {
         max_writes: 1,
         p_dep: 3,
         max_deps: 7,
+        p_copy_deps: 3,
         p_barrier: 1,
         p_batch: 0,
         p_tl: 1,
@@ -598,6 +599,22 @@ pub fn subs_for(id: &str) -> Vec<Sub> {
             ),
             250_000,
             4_000_000,
+        ), sub(
+            lp(
+                "C03",
+                "c03-layout-wide",
+                "wide class with barriers: dependency lists of up to 7 (distinct and repeated) names, every fourth list an entry-for-entry copy of the previous one, so that the same long list occurs on both sides of a barrier",
+                GenCfg {
+                    p_barrier: 3,
+                    p_dep: 9,
+                    p_copy_deps: 4,
+                    ..wide_cfg()
+                },
+                900,
+                p_layout::o_c03,
+            ),
+            60_000,
+            1_500_000,
         ), sub(
             lp(
                 "C03",
